@@ -316,7 +316,7 @@ PROPS = {
     "C20": dict(
         level="other",
         technique="function contracts: Verus on verbatim-extracted contains / find_first_following / new (any length, any T: Ord) + Kani contract harnesses (assert form) on From<Vec>, union and the searches, bounded lengths, all u8 values",
-        level_text="Proved without bound (Verus, bodies extracted verbatim, generic T: Ord with vstd's specification of Ord::cmp): on any value satisfying the type invariant (strictly increasing), `contains` agrees with membership and `find_first_following` returns the first element not smaller than the argument (every earlier element is smaller; None iff all are smaller) - relative to an assumed contract of std's slice binary_search. Bounded (Kani, element type u8 with every value symbolic, operand lengths concrete per harness): From<Vec> (<= 3 quick, 4 deep) yields exactly the distinct elements in strictly increasing order; union of any two values satisfying the invariant (lengths up to (2,1)/(1,2) quick, (2,2) thorough) is strictly increasing and exactly the set union, with every arm of the five-way case split covered; the two searches again (<= 4, real binary_search executed); new/default/clone/to_ref/into keep elements and invariant.",
+        level_text="Proved without bound (Verus, bodies extracted verbatim, generic T: Ord with vstd's specification of Ord::cmp): on any value satisfying the type invariant (strictly increasing), `contains` agrees with membership and `find_first_following` returns the first element not smaller than the argument (every earlier element is smaller; None iff all are smaller) - relative to an assumed contract of std's slice binary_search. Bounded (Kani, element type u8 with every value symbolic, operand lengths concrete per harness): From<Vec> (<= 3 quick, 4 deep) yields exactly the distinct elements in strictly increasing order; union of any two values satisfying the invariant (lengths up to (2,2)) is strictly increasing and exactly the set union, with every arm of the five-way case split covered; the two searches again (<= 4, real binary_search executed); new/default/clone/to_ref/into keep elements and invariant.",
         level_note="Verus side: assume_specification for <[T]>::binary_search (Ok(i): element i equals x; Err(i): insertion point) - listed in the evidence; the invariant is a precondition there. `From<Vec>` (sort_unstable, dedup without vstd specification) and `union` (slice patterns, `mut self`) are outside Verus's dialect and stay bounded. Real std sort and dedup are executed by CBMC (no sort model).",
         explanation="contains / find_first_following: PROVED unbounded relative to the assumed binary_search contract (Verus); From<Vec>, union: BOUNDED (Kani, lengths as stated per harness, instance u8).",
         undecided_clauses=["From<Vec> and union for unbounded lengths and element types other than u8 (Arc<str> is exercised under C17)"],
